@@ -81,7 +81,8 @@ std::map<IndexCombination4,std::vector<ComplexType> > TwoParticleGFContainer::co
     for (size_t p=0; p<comm.size(); p++) {
         int color = int (1.0*p / color_size);
         proc_colors[p] = color;
-        color_roots[color]=p;
+        // the data of a colour end up on rank 0 of its sub-communicator, i.e. on the first rank of the colour
+        if (!color_roots.count(color)) color_roots[color]=p;
     }
     for (size_t i=0; i<ncomponents; i++) {
         int color = i*ncolors/ncomponents;
